@@ -13,7 +13,7 @@
 ##############################################################################
 """Data Chunk Receiver"""
 
-from waitress.rfc7230 import CHUNK_EXT_RE, ONLY_HEXDIG_RE
+from waitress.rfc7230 import CHUNK_EXT_RE, HEADER_FIELD_RE, ONLY_HEXDIG_RE
 from waitress.utilities import BadRequest, find_double_newline
 
 
@@ -190,6 +190,13 @@ class ChunkedReceiver:
                     # Finished the trailer.
                     self.completed = True
                     self.trailer = trailer[:pos]
+
+                    # The trailer section consists of header field lines.
+                    for line in trailer[: pos - 4].split(b"\r\n"):
+                        if not HEADER_FIELD_RE.fullmatch(line):
+                            self.error = BadRequest("Invalid trailer")
+
+                            break
 
                     return orig_size - (len(trailer) - pos)
 
